@@ -173,6 +173,8 @@ impl Runner {
                 "mu" => match ctor.as_str() {
                     "new" => Subject::Mu(MergeUnbounded::new()),
                     "from_iter" | "from_iter_lazy" => Subject::Mu(init.iter().filter(|_| true).map(|c| SStreamU::new(*c)).collect()),
+                    // (the seeding constructor is not part of the crate's interface: capacity 0 is not a legal request)
+                    _ if cap == 0 => Subject::Mu(MergeUnbounded::new()),
                     _ => Subject::Mu(MergeUnbounded::verif_with_first_capacity(cap)),
                 },
                 "bu" => Subject::Bu(Box::pin(SUp::<SFut>::new().buffered_unordered(cap))),
